@@ -19,11 +19,10 @@ Record Inv_zp (s : state) : Prop := {
 
 Lemma wfsc_app_sig body f : sigfreeb body = true -> wfsc (body ++ [PSignal f]) = true.
 Proof.
-  induction body as [|p body IH]; cbn; [done|]. intros [Hp Hb]%andb_true_iff. specialize (IH Hb).
-  destruct (body ++ [PSignal f]) eqn:E; [by destruct body|]. by destruct p.
+  induction body as [|p body IH]; cbn; [done|]. intros [Hp Hb]%andb_true_iff. specialize (IH Hb). by destruct p.
 Qed.
 Lemma wfsc_tail p sc : wfsc (p :: sc) = true -> wfsc sc = true.
-Proof. cbn. destruct sc; [done|]. by destruct p. Qed.
+Proof. cbn. destruct p; try done. by destruct sc. Qed.
 Lemma wfsc_sig_last f sc : wfsc (PSignal f :: sc) = true -> sc = [].
 Proof. cbn. by destruct sc. Qed.
 Lemma forallb_wake_frames_ok0 ws : forallb ok0 (wake_frames ws) = true. Proof. by induction ws. Qed.
@@ -63,6 +62,7 @@ Section ZP.
     all: try (by eapply wfsc_tail).
     all: try (by apply wfsc_app_sig).
     all: try (match goal with H : wfsc (PSignal _ :: ?l) = true |- wfsc ?l = true => by rewrite (wfsc_sig_last _ _ H) end).
+    all: try (match goal with H : wfjob (JFut _ _ (PSignal _ :: ?l)) = true |- wfsc ?l = true => by rewrite (wfsc_sig_last _ _ H) end).
     all: try (match goal with H : awaitb (OFuture ?body ?u) = true |- _ => cbn in H; destruct u; try discriminate H; first [by apply wfsc_app_sig|done] end).
     all: try (match goal with |- forallb ok0 (opt_wake ?o) = true => by destruct o end).
     all: try (match goal with E : jobs _ = ?j :: ?l |- _ => rewrite E in I2; cbn in I2; apply andb_true_iff in I2 as [? ?]; first [done|cbn; done] end).
@@ -87,7 +87,7 @@ Proof.
   pose proof (it_rn _ HT a _ _ Hst ltac:(left)) as Hrn. cbn in Hrn. apply bool_decide_eq_true in Hrn.
   pose proof (if_poll _ HF _ _ Hst) as Hpo. cbn in Hpo. apply andb_true_iff in Hpo as [Hadj _]. unfold adjok in Hadj. cbn in Hadj.
   destruct rest as [|y r]; [done|].
-  assert (Hwy : wf f y = true) by (destruct y; try done).
+  assert (Hwy : wf f y = true) by (destruct y; try done; by destruct pc).
   assert (Hlt : f < length (futs s)) by (eapply (wf_in_range s a _ y f HF Hst); [right; left|done]).
   pose proof (it_sig _ HT f Hlt Hrn) as Hn. unfold nsig in Hn. rewrite Hj in Hn. cbn in Hn.
   assert (Hp : np (sgf f) s > 0) by lia. apply np_pos_fsat in Hp as (c & fr & (st & Hc & Hin) & Hsg).
